@@ -37,6 +37,7 @@ type retInfo struct {
 	st    *State
 	vals  []Term
 	pos   string
+	blk   *ssa.BasicBlock
 }
 
 type rangeRec struct {
